@@ -97,7 +97,7 @@ def worker(slot_ids):
             bs = os.path.join(dd, "build.sh")
             if os.path.exists(bs):
                 txt = open(bs).read()
-                txt = re.sub(r"/tmp/wt3?/C\d\d", wt, txt)
+                txt = re.sub(r"/tmp/wt\d?/C\d\d", wt, txt)
                 open(bs, "w").write(txt)
                 rcd, od = sh("sh ./build.sh", cwd=dd, timeout=1800)
                 rec["demo_exit_with_change"] = rcd
